@@ -350,7 +350,7 @@ func init() {
 			// the same block evaluated by two overlapping pool requests (all instances share one rule tree)
 			if c.Shard == 0 {
 				for _, bad := range [][2]int64{{1, 0}, {0, 1}, {0, 0}, {1, 1}} {
-					hx.Explore("C18", concPoolScenario(bad), hx.ExploreCfg{Bound: envBound(delayBound(c, 2)), Delay: true, Prune: true, Deadline: c.Deadline}, c.Res)
+					hx.Explore("C18", concPoolScenario(bad), hx.ExploreCfg{Bound: envBound(delayBound(c, 2+thoroughExtra(c))), Delay: true, Prune: true, Deadline: c.Deadline}, c.Res)
 				}
 			}
 		},
